@@ -65,6 +65,23 @@ type opDef struct {
 	gen func(r *rng.R, dev uint32, wild bool) ([]string, func(u uhppote.IUHPPOTE) string)
 }
 
+// rawMaps renders the two maps of a profile entry by entry, keys in order (nil and empty told apart)
+func rawMaps(w types.Weekdays, sg types.Segments) string {
+	out := fmt.Sprintf("weekdays nil=%v:", w == nil)
+	for d := time.Sunday; d <= time.Saturday+3; d++ {
+		if v, ok := w[d]; ok {
+			out += fmt.Sprintf(" %d=%v", int(d), v)
+		}
+	}
+	out += fmt.Sprintf(" len=%d | segments nil=%v:", len(w), sg == nil)
+	for k := 0; k < 256; k++ {
+		if v, ok := sg[uint8(k)]; ok {
+			out += fmt.Sprintf(" %d=%v-%v", k, v.Start, v.End)
+		}
+	}
+	return out
+}
+
 func boolRes(ok bool, err error) string {
 	if err != nil {
 		return "err"
@@ -354,7 +371,8 @@ var opDefs = []opDef{
 		}
 		tf, tt := genVal(r, "date", wild), genVal(r, "date", wild)
 		doors, dt := genU8Map(r, 1, 4)
-		pin := uint32(rng.Pick(r, 0, 1, 999999, 1000000, 7531, r.Intn(1000000), int(r.U32()>>8)))
+		// (a PIN is three bytes on the wire: values at and above 2^24 whose low 24 bits look acceptable are still too large)
+		pin := rng.Pick(r, uint32(0), 1, 999999, 1000000, 7531, uint32(r.Intn(1000000)), r.U32()>>8, 16777216, 16777216+7531, 0x80000000, 0xff0f423f, r.U32())
 		formats := []types.CardFormat{}
 		ft := []string{}
 		nf := r.Intn(4) * r.Intn(2)
@@ -469,10 +487,11 @@ var opDefs = []opDef{
 		toks := append([]string{fmt.Sprintf("u8:%d", id), fmt.Sprintf("u8:%d", linked), tf, tt}, wt...)
 		toks = append(toks, st...)
 		return toks, func(u uhppote.IUHPPOTE) string {
-			before := fmt.Sprintf("%v|%v", p.Weekdays, p.Segments)
+			// (the maps entry by entry: their String methods show the days and the segments 1..3 only)
+			before := rawMaps(p.Weekdays, p.Segments)
 			res := boolRes(u.SetTimeProfile(dev, p))
-			if fmt.Sprintf("%v|%v", p.Weekdays, p.Segments) != before {
-				return "mutated-argument"
+			if rawMaps(p.Weekdays, p.Segments) != before {
+				return res + " ; mutated-argument"
 			}
 			return res
 		}
@@ -641,7 +660,10 @@ func genCfg(r *rng.R, dev uint32) cfgGen {
 			if b[0] == 0 {
 				b[0] = 10
 			}
-			port := uint16(rng.Pick(r, 60000, 60000, 54321, 1, 65535))
+			if r.Chance(1, 8) { // octets that add up to a multiple of 256, octets with the top bit set
+				b = rng.Pick(r, []byte{192, 168, 1, 151}, []byte{10, 0, 0, 246}, []byte{127, 0, 0, 129}, []byte{255, 255, 255, 3}, []byte{128, 128, 0, 0})
+			}
+			port := uint16(rng.Pick(r, 60000, 60000, 54321, 1, 65535, 32768, 32767))
 			addr = types.ControllerAddrFrom(netip.AddrFrom4([4]byte{b[0], b[1], b[2], b[3]}), port)
 			at = fmt.Sprintf("%d.%d.%d.%d:%d", b[0], b[1], b[2], b[3], port)
 		}
